@@ -13,9 +13,16 @@ using namespace std;
 double DownhillSimplexMethod::DSMStopCondition::getCurrentTolerance() const
 {
   const DownhillSimplexMethod* dsm = dynamic_cast<const DownhillSimplexMethod*>(optimizer_);
-  double rTol = 2.0 * NumTools::abs(dsm->y_[dsm->iHighest_] - dsm->y_[dsm->iLowest_]) /
-      (NumTools::abs(dsm->y_[dsm->iHighest_]) + NumTools::abs(dsm->y_[dsm->iLowest_]));
-  return rTol;
+  // The indices of the optimizer date from the beginning of the last step: use the current extreme values.
+  double yHigh = dsm->y_[0], yLow = dsm->y_[0];
+  for (double y : dsm->y_)
+  {
+    if (y > yHigh) yHigh = y;
+    if (y < yLow) yLow = y;
+  }
+  if (yHigh == yLow)
+    return 0.;
+  return 2.0 * NumTools::abs(yHigh - yLow) / (NumTools::abs(yHigh) + NumTools::abs(yLow));
 }
 
 /******************************************************************************/
@@ -146,8 +153,15 @@ double DownhillSimplexMethod::optimize()
 {
   AbstractOptimizer::optimize();
 
-  // set best shot:
-  return getFunction()->f(simplex_[iLowest_]);
+  // set best shot (the last step may have found a better point than the one it started with):
+  for (unsigned int i = 0; i < y_.size(); i++)
+  {
+    if (y_[i] < y_[iLowest_])
+      iLowest_ = i;
+  }
+  getParameters_() = simplex_[iLowest_];
+  currentValue_ = getFunction()->f(simplex_[iLowest_]);
+  return currentValue_;
 }
 
 /******************************************************************************/
